@@ -163,3 +163,10 @@ def sample_shapes(depth, n, seed, leaves=LEAVES_EXT):
         tries += 1; s = gen(depth)
         if s not in seen and valid(s): seen.add(s); out.append(s)
     return out
+
+class EmptySized:
+    """a user object that is weakly referenceable and falsy (len 0)"""
+    def __len__(self): return 0
+NS['EmptySized'] = EmptySized
+import collections as _c2
+NS.setdefault('OrderedDict', _c2.OrderedDict); NS.setdefault('Counter', _c2.Counter)
